@@ -154,4 +154,19 @@ def vChain (x : Vec) : List (Bool × Vec) → Except Err Vec
     | .ok y => vChain y r
     | .error e => .error e
 
+
+/-! ## Aliasing spellings: the operand is the object itself -/
+
+/-- `A += A` / `A -= A` (every entry is read before it is written), `S = S*S`, `v = v*S`, `v += v` -/
+def aliasM (kind : String) (A : Mat) : Except Err Mat :=
+  if kind = "pa" then plusAssign A A
+  else if kind = "ma" then minusAssign A A
+  else if kind = "ss" then mul A A
+  else .error .undef
+
+def aliasV (kind : String) (v : Vec) (S : Mat) : Except Err Vec :=
+  if kind = "vs" then vecMat v S
+  else if kind = "vv" then vaddAssign v v
+  else .error .undef
+
 end Lp.C04.Hist
